@@ -71,7 +71,7 @@ Lemma to_unit_sign (a u : Z) : (Z.abs a <= 2 ^ 53)%Z -> (0 <= u + 8 <= 22)%Z ->
   Bsign (to_unit a u) = (a <? 0)%Z.
 Proof.
   intros Ha Hu. destruct (to_unit_correct a u Ha Hu) as [_ Hfin].
-  unfold to_unit in *. rewrite lit_ToUnit_8_eq in *.
+  unfold to_unit in *. rewrite lit_ToUnit_8_eq in *. rewrite wrap64_small in * by lia.
   destruct (of_Z_exact a Ha) as [Hav Haf]. destruct (pow10_exact _ Hu) as [Hpv Hpf].
   pose proof (pow10_pos (u + 8) (proj1 Hu)) as Hpos.
   pose proof (Bdiv_correct 53 1024 _ _ mode_NE (of_Z a) (pow10 (u + 8))) as H.
@@ -84,6 +84,51 @@ Proof.
     exfalso. assert (Hpn : IZR (10 ^ (u + 8)) <> 0) by lra. specialize (H Hpn).
     destruct (Bdiv mode_NE (of_Z a) (pow10 (u + 8))) as [s|s| |s m e Hb]; try discriminate;
       unfold binary_overflow in H; simpl in H; destruct (overflow_to_inf _ _); discriminate.
+Qed.
+
+(* ---------- the Satoshi unit: fixed precision 0 of an integral float ---------- *)
+Lemma div_half_even_exact (q d : Z) : (0 < d)%Z -> div_half_even (q * d) d = q.
+Proof.
+  intros Hd. unfold div_half_even. rewrite Z.div_mul, Z.mod_mul by lia.
+  replace (2 * 0)%Z with 0%Z by lia. destruct (Z.compare_spec 0 d); [lia|reflexivity|lia].
+Qed.
+
+(* strconv.FormatFloat(F, 'f', 0, 64) of a float whose value is the integer a prints a *)
+Lemma fmt_fixed_int (F : float) (a : Z) :
+  is_finite F = true -> B2R F = IZR a -> Bsign F = (a <? 0)%Z ->
+  fmt_fixed F 0 = dec_text (a <? 0)%Z (Z.abs a) 0.
+Proof.
+  intros Hfin Hv Hs. destruct F as [s|s| |s m e Hb]; try discriminate.
+  - simpl in Hv, Hs. apply eq_IZR in Hv. subst a. cbn [fmt_fixed]. now rewrite Hs.
+  - cbn [Bsign] in Hs. cbn [fmt_fixed]. rewrite <- Hs. f_equal.
+    unfold B2R, F2R in Hv. cbn [Fnum Fexp] in Hv.
+    assert (Hsa : Z.abs (SpecFloat.cond_Zopp s (Z.pos m)) = Z.pos m) by (destruct s; reflexivity).
+    destruct (Z.leb_spec 0 e) as [He|He].
+    + rewrite <- (IZR_Zpower radix2 e He) in Hv.
+      rewrite <- mult_IZR in Hv. apply eq_IZR in Hv.
+      change (radix2 ^ e)%Z with (2 ^ e)%Z in Hv.
+      assert (Hp : (0 <= 2 ^ e)%Z) by (apply Z.pow_nonneg; lia).
+      rewrite <- Hv, Z.abs_mul, Hsa, (Z.abs_eq (2 ^ e)) by exact Hp.
+      change (10 ^ 0)%Z with 1%Z. ring.
+    + assert (Hm : (SpecFloat.cond_Zopp s (Z.pos m) = a * 2 ^ (- e))%Z).
+      { apply eq_IZR. rewrite mult_IZR, <- Hv. change (IZR (2 ^ (- e))) with (IZR (radix2 ^ (- e))).
+        rewrite (IZR_Zpower radix2 (- e)) by lia. rewrite Rmult_assoc, <- bpow_plus.
+        replace (e + - e)%Z with 0%Z by lia. simpl. ring. }
+      assert (Hp : (0 < 2 ^ (- e))%Z) by (apply Z.pow_pos_nonneg; lia).
+      assert (Hm' : (Z.pos m = Z.abs a * 2 ^ (- e))%Z).
+      { rewrite <- Hsa, Hm, Z.abs_mul. f_equal. apply Z.abs_eq. lia. }
+      change (10 ^ 0)%Z with 1%Z. rewrite Z.mul_1_r, Hm'. now apply div_half_even_exact.
+Qed.
+
+Lemma to_unit_satoshi (a : Z) : (Z.abs a <= 2 ^ 53)%Z ->
+  fmt_fixed (to_unit a c_AmountSatoshi) 0 = exact_text a 0.
+Proof.
+  intros Ha. change c_AmountSatoshi with (-8)%Z.
+  destruct (to_unit_correct a (-8) Ha) as [Hv Hfin]; [lia|].
+  pose proof (to_unit_sign a (-8) Ha ltac:(lia)) as Hs.
+  change (10 ^ (-8 + 8))%Z with 1%Z in Hv. unfold Rdiv in Hv. rewrite Rinv_1, Rmult_1_r in Hv.
+  unfold RN in Hv. rewrite round_generic in Hv; [|auto with typeclass_instances|now apply format_small_int].
+  rewrite (fmt_fixed_int _ a Hfin Hv Hs). reflexivity.
 Qed.
 
 Section Shortest.
@@ -150,12 +195,44 @@ Theorem format_exact (a u : Z) : (Z.abs a <= c_MaxSatoshi)%Z -> (c_AmountSatoshi
   format shortest a u = format_spec a u.
 Proof.
   intros Ha Hu. change c_AmountSatoshi with (-8)%Z in Hu.
-  unfold format, format_spec. change lit_Format_8 with 8%Z.
+  unfold format, format_spec. change lit_Format_8 with 8%Z. rewrite (wrap64_small (u + 8)) by lia. rewrite (wrap64_small (- (u + 8))) by lia.
   destruct (Z.ltb_spec (- (u + 8)) 0) as [Hneg|Hpos]; [|reflexivity].
   rewrite shortest_exact by (assumption || lia).
   replace (- - (u + 8))%Z with (u + 8)%Z by lia. reflexivity.
 Qed.
+
+(* The same with a specification that mentions no float at all, the Satoshi unit included:
+   Format(u) = fewest-digit exact decimal of a * 10^-(u+8), space, label. *)
+Theorem format_is_exact_text (a u : Z) : (Z.abs a <= c_MaxSatoshi)%Z -> (c_AmountSatoshi <= u <= 14)%Z ->
+  format shortest a u = format_exact_spec a u.
+Proof.
+  intros Ha Hu. change c_AmountSatoshi with (-8)%Z in Hu.
+  assert (Ha53 : (Z.abs a <= 2 ^ 53)%Z).
+  { change c_MaxSatoshi with 2100000000000000%Z in Ha. change (2 ^ 53)%Z with 9007199254740992%Z. lia. }
+  unfold format, format_exact_spec. change lit_Format_8 with 8%Z. rewrite (wrap64_small (u + 8)) by lia. rewrite (wrap64_small (- (u + 8))) by lia.
+  destruct (Z.ltb_spec (- (u + 8)) 0) as [Hneg|Hpos].
+  - rewrite shortest_exact by (assumption || lia). reflexivity.
+  - assert (u = c_AmountSatoshi) as -> by (change c_AmountSatoshi with (-8)%Z; lia).
+    change (- (c_AmountSatoshi + 8))%Z with 0%Z. change (c_AmountSatoshi + 8)%Z with 0%Z.
+    now rewrite to_unit_satoshi.
+Qed.
+
+(* the Satoshi unit needs nothing from strconv's shortest printer *)
+Theorem format_satoshi (a : Z) : (Z.abs a <= c_MaxSatoshi)%Z ->
+  format shortest a c_AmountSatoshi = dec_text (a <? 0)%Z (Z.abs a) 0 ++ 32%N :: unit_string c_AmountSatoshi.
+Proof.
+  intros Ha.
+  assert (Ha53 : (Z.abs a <= 2 ^ 53)%Z).
+  { change c_MaxSatoshi with 2100000000000000%Z in Ha. change (2 ^ 53)%Z with 9007199254740992%Z. lia. }
+  unfold format. change (wrap64 (- wrap64 (c_AmountSatoshi + lit_Format_8))) with 0%Z.
+  change (0 <? 0)%Z with false. cbv iota. now rewrite to_unit_satoshi.
+Qed.
 End Shortest.
+
+Lemma source_literals :
+  lits_Amount_Format = [102; 8; 64]%Z /\ lits_Amount_ToUnit = [8]%Z /\ lits_AmountUnit_String = [10]%Z /\
+  lit_Format_8 = 8%Z /\ lit_ToUnit_8 = 8%Z /\ lit_String_base = 10%Z.
+Proof. repeat split. Qed.
 
 (* The hypothesis is not vacuous: its body holds at F = Amount(150000000).ToBCH() = 1.5 for the
    text "1.5" that strconv prints there (m = 15, j = 1), including the minimality clause. *)
